@@ -60,9 +60,9 @@ def ccase(c):
     for p in c["points"]:
         routed = "None" if p["err"] else "(Some (%d%%N, %d%%N))" % (p["gid"], p["sid"])
         hsh = "None" if not p["hash"] else "(Some (%s, %s%%N))" % (cstr(p["hkey"]), p["hash"])
-        pts.append("{| cp_tags := %s; cp_time := %s; cp_leaf := %s; cp_sat := %s; cp_routed := %s; cp_hash := %s |}" % (
+        pts.append("{| cp_tags := %s; cp_time := %s; cp_leaf := %s; cp_sat := %s; cp_fresh := %s; cp_routed := %s; cp_hash := %s |}" % (
             ctags(p["tags"] or []), coq_z(p["time"]), coq_list([coq_bool(b) for b in (p["leaf"] or [])]), coq_bool(p["sat"]),
-            routed, hsh))
+            coq_bool(p["fresh"]), routed, hsh))
     ct = "None" if c["condtags"] is None else "(Some %s)" % coq_list([ctags(ts) for ts in c["condtags"]])
     return ("{| cc_cfg := %s; cc_born := %s; cc_cond := %s; cc_points := %s; cc_condtags := %s; cc_tmin := %s; "
             "cc_tmax := %s; cc_qgroups := %s; cc_targets := %s |}") % (
